@@ -66,6 +66,81 @@ def lib_expect(srcs, filename):
     return [res.get(i, {}).get("fp", {}) for i in range(len(srcs))]
 
 
+CHUNK = 8192          # the read size of run_stdin; a different real size only moves the cases off the boundary (then
+                      # `read_boundaries_hit` in the evidence drops to 0, and the check says so as a tool error)
+CHARS = {2: "\u00e9", 3: "\u20a6", 4: "\U0001f600"}
+
+
+def intake(v, naija, q):
+    """specs/io/SourceIntake.tla: the text handed to the pipeline is the script whatever the read
+    boundaries; exit status 0 iff no error diagnostic.  TLC checks the model, refutes both slips and
+    prints the case classes; they are instantiated at the real sizes and run by file and stdin."""
+    m = tlc.run("io/SourceIntake.tla", "io/SourceIntake.cfg", workers=4, timeout=300)
+    if m.rc != 0 or m.timed_out or not m.records:
+        raise common.ToolError("SourceIntake.tla: %s" % (m.errors[:3] or m.tail[-5:]))
+    for cfg, inv in (("io/SourceIntakeChunk.cfg", "WellFormedAccepted"), ("io/SourceIntakeCount.cfg", "StatusRule")):
+        r = tlc.run("io/SourceIntake.tla", cfg, workers=4, timeout=300, coverage=False)
+        if r.rc != 12 or not any(inv in e for e in r.errors):
+            raise common.ToolError("SourceIntake.tla does not refute %s (vacuous model)" % cfg)
+    classes = m.records[0]
+    cases = []
+    for sd in classes["straddle"]:
+        for k in classes["boundaries"]:
+            w, o = sd["w"], sd["o"]
+            head = 'shout("<'
+            tail = '>")\nshout(1 add 2)\n'
+            pad = k * CHUNK - o - len(head)            # the character starts o bytes before the k-th read boundary
+            src = "#" + "a" * (pad - 2) + "\n" + head + CHARS[w] + tail
+            assert src.encode().index(CHARS[w].encode()) == k * CHUNK - o
+            cases.append(("straddle:w%d:o%d:k%d" % (w, o, k), src))
+            # the same inside a comment and inside an identifier-free stretch of a longer script
+            src2 = "shout(7)\n#" + "b" * (k * CHUNK - o - 10) + CHARS[w] + " trailing\nshout(8)\n"
+            assert src2.encode().index(CHARS[w].encode()) == k * CHUNK - o
+            cases.append(("straddle-comment:w%d:o%d:k%d" % (w, o, k), src2))
+    for e in classes["errs"]:
+        n = e["m"] * 256 + e["d"]
+        cases.append(("errors:static:%d" % n, "".join("shout(zz%d)\n" % i for i in range(n))))
+        cases.append(("errors:parse:%d" % n, "".join("make get %d\n" % i for i in range(n))))
+    exp_file = lib_expect([s for _, s in cases], "t.ns")
+    exp_stdin = lib_expect([s for _, s in cases], "<stdin>")
+    runs = agree = hit = 0
+    counts_seen = set()
+    with tempfile.TemporaryDirectory(prefix="c14i_", dir=os.path.join(common.VERIF, "work")) as td:
+        for (name, src), ef, es in zip(cases, exp_file, exp_stdin):
+            for how, e in (("file", ef), ("stdin", es)):
+                if e.get("st") in (None, "PANIC", "CRASH", "HANG"):
+                    raise common.ToolError("library pipeline failed on intake case %s: %s" % (name, e.get("st")))
+                nerr = sum(1 for d in e.get("diags", []) if d["sev"] == "error") + (1 if e["st"] not in ("done", "parse_error", "static_error") else 0)
+                if how == "file":
+                    with open(os.path.join(td, "t.ns"), "w", encoding="utf-8") as f:
+                        f.write(src)
+                    p = subprocess.run([naija, "t.ns"], cwd=td, capture_output=True, timeout=120)
+                else:
+                    p = subprocess.run([naija, "-"], cwd=td, input=src.encode(), capture_output=True, timeout=120)
+                runs += 1
+                if name.startswith("straddle"):
+                    hit += 1
+                else:
+                    counts_seen.add(nerr)
+                out = p.stdout.decode("utf-8", errors="replace")
+                same = out == e.get("stdout", "")
+                ok = same and ((p.returncode == 0) == (nerr == 0)) and p.returncode >= 0
+                if ok:
+                    agree += 1
+                else:
+                    what = "stdout differs" if not same else "exit status %s with %d error diagnostic(s)" % (p.returncode, nerr)
+                    v.finding("intake:%s:%s" % (how, name), "naija (%s) vs library pipeline on %s: %s\n--- binary stdout (tail)\n%s\n--- binary stderr\n%s\n--- library (tail)\n%s"
+                              % (how, name, what, out[-400:], p.stderr.decode("utf-8", errors="replace")[-400:], e.get("stdout", "")[-400:]),
+                              {"case": name, "how": how, "source_bytes": len(src.encode()), "rc": p.returncode, "library_st": e["st"], "errors": nerr,
+                               "source_head": src[:80], "binary_stdout_tail": out[-2000:]})
+    wrap = sorted(c for c in counts_seen if c and c % 256 == 0)
+    if not wrap:
+        raise common.ToolError("no intake case produced a multiple of 256 error diagnostics (counts seen: %s)" % sorted(counts_seen))
+    return {"model_states": m.distinct, "model_transitions": m.generated, "refuted_slips": ["per-chunk validation", "error count as status"],
+            "cases": len(cases), "runs": runs, "agree": agree, "read_boundaries_hit": hit, "error_counts_seen": sorted(counts_seen),
+            "error_counts_multiple_of_256": wrap}
+
+
 def run(tier):
     common.build_harness()
     v = common.Verdict("C14", tier, "model_checking")
@@ -127,6 +202,10 @@ def run(tier):
                     what = "stdout differs" if not same_text else "exit status %s but the library run ended with %s" % (p.returncode, e["st"])
                     v.finding("binary:%s:%s:%s" % (how, cls, le.core_key(src)), "naija (%s) vs library pipeline: %s\n%s\n--- binary stdout\n%s\n--- library\n%s" % (how, what, src, out[-600:], e.get("stdout", "")[-600:]),
                               {"source": src, "how": how, "binary_stdout": out, "library_stdout": e.get("stdout"), "rc": p.returncode, "library_st": e["st"]})
+    # 2b. source intake and exit status (specs/io/SourceIntake.tla)
+    intake_cov = intake(v, naija, q)
+    states += intake_cov["model_states"]
+    trans += intake_cov["model_transitions"]
     # 3. (b)+(c) sequences in one process, from the model's outcome sequences
     seqs = []
     mclasses = ["ok", "parse_error", "static_error", "runtime_error"]
@@ -211,7 +290,7 @@ def run(tier):
     trans += tr.generated
     v.coverage = {"states": states, "transitions": trans, "traces_validated_against_impl": accepted,
                   "scratch_model": {"distinct_states": m.distinct, "coverage": {k: x[1] for k, x in m.coverage.items()}, "mutant_refuted": True},
-                  "binary_invocations": bin_runs, "binary_invocations_agreeing": agree_bin,
+                  "binary_invocations": bin_runs, "binary_invocations_agreeing": agree_bin, "source_intake": intake_cov,
                   "process_histories": len(histories), "runs_in_sequences": seq_runs, "runs_in_sequences_agreeing": agree_seq,
                   "scratch_traces_accepted": accepted, "programs_by_outcome": {c: len(by[c]) for c in classes},
                   "evaluations": bin_runs + seq_runs, "distinct_nontrivial": len(set(srcs)) + len(solo_needed),
